@@ -3,6 +3,7 @@ package c12
 
 import (
 	"fmt"
+	"sort"
 	"strings"
 	"testing"
 
@@ -125,7 +126,7 @@ func prop(t *rapid.T) {
 			continue
 		}
 		probes = append(probes, [2]string{rt.Methods[0], "/" + f[1]}) // un-prefixed
-		for s := range firstSegs {
+		for _, s := range sortedKeys(firstSegs) {
 			if s != f[0] {
 				probes = append(probes, [2]string{rt.Methods[0], "/" + s + "/" + f[1]}) // under another prefix
 				break
@@ -216,3 +217,12 @@ func prop(t *rapid.T) {
 }
 
 func TestProp(t *testing.T) { rapid.Check(t, prop) }
+
+func sortedKeys(m map[string]bool) []string {
+	var ks []string
+	for k := range m {
+		ks = append(ks, k)
+	}
+	sort.Strings(ks)
+	return ks
+}
